@@ -43,8 +43,12 @@ def ensure_slot(k):
         assert rc == 0, out
         shutil.copytree(V / "lean" / ".lake", v / "lean" / ".lake", symlinks=True)
     sh("git checkout -- . && git clean -fdq -e lean/.lake", cwd=v)
+    was = sh("git rev-parse HEAD", cwd=v)[1].strip()
     rc, out = sh(f"git checkout -q --detach {head}", cwd=v)
     assert rc == 0, out
+    if was != head:
+        # /verif moved on: take its build output (built at HEAD) instead of rebuilding every Lean file in every slot
+        sh(f"rsync -a --delete {V / 'lean' / '.lake'}/ {v / 'lean' / '.lake'}/")
     return r, v
 
 
